@@ -121,3 +121,66 @@ Section LiveIndG.
     rewrite flat_app. exact H3.
   Qed.
 End LiveIndG.
+
+(* the same, also accumulating the boundary states *)
+Section LiveIndS.
+  Variable E : env.
+  Variable P : dstate -> list effect -> list bstate -> Prop.
+  Hypothesis Pstep : forall d i effs sts rest, P d effs sts -> good_step E d i = true ->
+    P (fst (fst (dstep E false d i))) (effs ++ snd (fst (dstep E false d i)))
+      (sts ++ [(d_sm (fst (fst (dstep E false d i))), rest)]).
+
+  Lemma starts_PS : forall fuel d effs sts rest, P d effs sts -> starts_good E fuel d = true ->
+    P (fst (starts E fuel d)) (effs ++ flat (snd (starts E fuel d))) (sts ++ starts_states E fuel d rest).
+  Proof.
+    induction fuel as [|n IH]; intros d effs sts rest H G; cbn [starts starts_good starts_states] in *.
+    - cbn [fst snd flat flat_map]. rewrite !app_nil_r. exact H.
+    - apply andb_prop in G. destruct G as [G1 G2].
+      pose proof (Pstep d (IStart 0) effs sts rest H G1) as H1.
+      destruct (dstep E false d (IStart 0)) as [[d1 eff] com]. cbn [fst snd] in *. destruct com.
+      + specialize (IH d1 _ _ rest H1 G2). destruct (starts E n d1) as [d2 tr]. cbn [fst snd] in *.
+        rewrite flat_cons, app_assoc.
+        change ((d_sm d1, rest) :: starts_states E n d1 rest) with ([(d_sm d1, rest)] ++ starts_states E n d1 rest).
+        rewrite app_assoc. exact IH.
+      + cbn [fst snd]. rewrite flat_cons. cbn [flat flat_map]. rewrite app_nil_r. exact H1.
+  Qed.
+
+  Lemma listen_PS : forall ins d effs sts, P d effs sts -> listen_good E d ins = true ->
+    P (fst (listen E d ins)) (effs ++ flat (snd (listen E d ins))) (sts ++ listen_states E d ins).
+  Proof.
+    induction ins as [|i rest IH]; intros d effs sts H G; cbn [listen listen_good listen_states] in *.
+    - cbn [fst snd flat flat_map]. rewrite !app_nil_r. exact H.
+    - apply andb_prop in G. destruct G as [G1 G].
+      pose proof (Pstep d i effs sts rest H G1) as H1.
+      destruct (dstep E false d i) as [[d1 eff] com]. cbn [fst snd] in *.
+      apply andb_prop in G. destruct G as [G2 G3].
+      assert (S : P (fst (if com then starts E SFUEL d1 else (d1, [])))
+                    ((effs ++ eff) ++ flat (snd (if com then starts E SFUEL d1 else (d1, []))))
+                    ((sts ++ [(d_sm d1, rest)]) ++ (if com then starts_states E SFUEL d1 rest else []))).
+      { destruct com; [apply starts_PS; assumption|]. cbn [fst snd flat flat_map]. rewrite !app_nil_r. exact H1. }
+      assert (D2 : listen_good E (fst (if com then starts E SFUEL d1 else (d1, []))) rest = true)
+        by (destruct com; exact G3).
+      assert (EqD : (if com then fst (starts E SFUEL d1) else d1) = fst (if com then starts E SFUEL d1 else (d1, [])))
+        by (destruct com; reflexivity).
+      rewrite EqD.
+      destruct (if com then starts E SFUEL d1 else (d1, [])) as [d2 tr2]. cbn [fst snd] in *.
+      specialize (IH d2 _ _ S D2). destruct (listen E d2 rest) as [d3 tr3]. cbn [fst snd] in *.
+      rewrite flat_cons, flat_app, !app_assoc.
+      change ((d_sm d1, rest) :: (if com then starts_states E SFUEL d1 rest else []) ++ listen_states E d2 rest)
+        with ([(d_sm d1, rest)] ++ (if com then starts_states E SFUEL d1 rest else []) ++ listen_states E d2 rest).
+      rewrite !app_assoc. exact IH.
+  Qed.
+
+  Lemma run_PS : forall h0 ins, good_run E h0 ins = true -> P (boot h0 [] 0) [] [(init_state h0, ins)] ->
+    P (fst (lifetime E h0 [] 0 ins)) (flat (snd (lifetime E h0 [] 0 ins))) (life_states E h0 ins).
+  Proof.
+    intros h0 ins G H0. unfold good_run in G. apply andb_prop in G. destruct G as [G G3].
+    apply andb_prop in G. destruct G as [_ G2].
+    unfold lifetime, recover, life_states. cbn [load live_entries index_of fold_left sort_h snd replay].
+    unfold run_live. pose proof (starts_PS SFUEL _ [] _ ins H0 G2) as H2.
+    destruct (starts E SFUEL (boot h0 [] 0)) as [d2 tr2]. cbn [fst snd] in *.
+    pose proof (listen_PS ins d2 _ _ H2 G3) as H3.
+    destruct (listen E d2 ins) as [d3 tr3]. cbn [fst snd app] in *.
+    rewrite flat_app. exact H3.
+  Qed.
+End LiveIndS.
